@@ -209,6 +209,9 @@ def deOps {σ α : Type} (next back : σ → Option α × σ) (len : σ → Int)
   | it, 'c' :: r, acc => deOps next back len shw it r (s!"c{(drainOf next 64 it 0 none).1}" :: acc)
   | it, 'z' :: r, acc => deOps next back len shw it r (shw (drainOf next 64 it 0 none).2 :: acc)
   | it, 'r' :: r, acc => deOps next back len shw it r (shw (drainOf back 64 it 0 none).2 :: acc)
+  -- max() / min() of an ascending iterator: its last / first remaining item
+  | it, 'x' :: r, acc => deOps next back len shw it r (shw (drainOf next 64 it 0 none).2 :: acc)
+  | it, 'w' :: r, acc => deOps next back len shw it r (shw (next it).1 :: acc)
   | it, _ :: r, acc => deOps next back len shw it r (s!"l{len it}" :: acc)
 
 def daysOps (s : MonthShape) (ops : List Char) : String :=
